@@ -81,11 +81,14 @@ PROPS["C03"] = {
 }
 
 _c04_step_quick = [{"P0": 5}, {"P0": 62, "P1": 7}, {"P0": 63, "P1": 7}, {"P0": 63, "P1": 63, "P2": 3}, {"P0": 63, "P1": 63, "P2": 31, "P3": 1}, {"P0": 63, "P1": 63, "P2": 31, "P3": 3}]
+_c04_step_thorough = _c04_step_quick + [{"P0": 0}, {"P0": 1}, {"P0": 31}, {"P0": 63, "P1": 0}, {"P0": 63, "P1": 31}, {"P0": 63, "P1": 62},
+                                        {"P0": 63, "P1": 63, "P2": 0}, {"P0": 63, "P1": 63, "P2": 15}, {"P0": 63, "P1": 63, "P2": 30},
+                                        {"P0": 63, "P1": 63, "P2": 31, "P3": 0}, {"P0": 63, "P1": 63, "P2": 31, "P3": 2}]
 PROPS["C04"] = {
     "title": "expired entries reclaimed within about one tick",
     "technique": "SSA symbolic execution of TimerWheel.schedule/advance/expire/deschedule + SMT (z3): inductive invariant over symbolic wheel time, deadline and advance target (64-bit)",
     "level_text": "Inductive bounded model checking of the real timer wheel: base (schedule establishes the invariant), step (any advance of at most G=2^31 ns from any invariant state keeps the invariant or removes the entry, never before its deadline, and always once the advance target is >= deadline + 2^30 ns), re-schedule, deschedule, three entries per slot, and jumps beyond a full rotation of every wheel. All times are 64-bit symbolic below 2^62; the solver enumerates the wheel slots. Inside these bounds the step covers schedule/advance sequences of any length; it is bounded model checking, not a proof.",
-    "level_note": "Trusted: go/ssa, the executor's encoding, z3. Quick tier pins the slot position of the wheel time on each level to representative values (each level's wrap-around included); the thorough tier leaves every position symbolic. Advances between 2^31 ns and a full rotation of all wheels (2^51 ns) are outside the step lemma (covered only by the jump lemma at and above 2^51). Store-level scheduling calls are exercised by the C02/C05 programs.",
+    "level_note": "Trusted: go/ssa, the executor's encoding, z3. Quick tier pins the slot position of the wheel time on each level to representative values (each level's wrap-around included); the thorough tier pins a wider family (first, middle and last slots of every level, 17 tuples); with every position symbolic the step lemma did not finish within 45 minutes on 16 cores and is therefore not registered. Advances between 2^31 ns and a full rotation of all wheels (2^51 ns) are outside the step lemma (covered only by the jump lemma at and above 2^51). Store-level scheduling calls are exercised by the C02/C05 programs.",
     "assumptions": ["invariant Inv(level, slot, N, E) as pre-state of the step (ZZ_C04_Base and ZZ_C04_Resched show schedule() establishes it)", "0 <= times < 2^62 ns"],
     "outside_bound": ["single advances longer than 2^31 ns and shorter than 2^51 ns", "more than 3 entries per slot", "deadlines at or behind the wheel time at schedule() (Store filters these for NEW events)"],
     "quick": [H("ZZ_C04_Base", reach=["placed"], bounds="all N<E<2^62")] +
@@ -96,7 +99,7 @@ PROPS["C04"] = {
               H("ZZ_C04_LateUpdate", reach=["three-ticks"], bounds="TTL update processed 2^31 ns late"),
               H("ZZ_C04_StoreUpdate", reach=["ticked"], bounds="TTL changes through the Store: none/2^28/2^29 -> none/2^28/2^29")],
     "thorough": [H("ZZ_C04_Base", reach=["placed"]),
-                 H("ZZ_C04_Step", reach=["advanced", "removed", "kept"], bounds="G=2^31, all positions symbolic"),
+                ] + [H("ZZ_C04_Step", params=p, reach=["advanced", "removed", "kept"], bounds="G=2^31, wheel-time slot positions pinned: %s" % p) for p in _c04_step_thorough] + [
                  H("ZZ_C04_Resched", reach=["rescheduled"]), H("ZZ_C04_Deschedule", reach=["descheduled"]),
                  H("ZZ_C04_Slot3", params={"P0": 5}, reach=["advanced"]), H("ZZ_C04_Slot3", params={"P0": 63, "P1": 7}, reach=["advanced"]),
                  H("ZZ_C04_Jump", reach=["jumped"]), H("ZZ_C04_Jump", params={"K": 4194303}, reach=["jumped"]),
@@ -148,8 +151,12 @@ PROPS["C06"] = {
               H("ZZ_C06_History", params={"N": 2, "DOOR": 1}, reach=["history-done", "set-false"], bounds="N=2 calls, cap 3, doorkeeper on"),
               H("ZZ_C06_ExpiredUpdate", reach=["second-set"]),
               H("ZZ_C06_Doorkeeper", reach=["three-sets", "first-sight-rejected"], bounds="arbitrary doorkeeper reset counter and filter contents (inductive state), one key offered three times"),
-              H("ZZ_C06_Loader", reach=["loaded"], bounds="loader cost 1..cap+5")],
-    "thorough": [H("ZZ_C06_History", params={"N": 3}, reach=["history-done", "set-true", "set-false"], bounds="N=3 calls, cap 3, doorkeeper off"),
+              H("ZZ_C06_Loader", reach=["loaded"], bounds="loader cost 1..cap+5"),
+              H("ZZ_C02_ExpiryWindow", params={"PRE": 1}, reach=["settled"], bounds="an accepted Set that extends the deadline of an expired, uncollected entry is not lost to the expiry of the old value (atomic granularity, preemptions 1)"),
+              H("ZZ_C06_PoolRecycledDeadline", params={"POOL": 1}, reach=["recycling"], bounds="entry pool on: object of an expired TTL entry recycled for a key stored without TTL; TTL <= 2^29 and later advance <= 2^41 symbolic"),
+              H("ZZ_C06_PoolRecycledDeadline", params={"POOL": 1, "CAP": 1}, reach=["recycling"], bounds="same with the object of an evicted TTL entry")],
+    "thorough": [H("ZZ_C06_PoolRecycledDeadline", params={"POOL": 1, "POOLMODE": 2}, reach=["recycling"]), H("ZZ_C06_PoolRecycledDeadline", params={"POOL": 1, "CAP": 1, "POOLMODE": 2}, reach=["recycling"]), H("ZZ_C02_ExpiryWindow", params={"PRE": 2}, reach=["settled"]),
+                 H("ZZ_C06_History", params={"N": 3}, reach=["history-done", "set-true", "set-false"], bounds="N=3 calls, cap 3, doorkeeper off"),
                  H("ZZ_C06_History", params={"N": 3, "DOOR": 1}, reach=["history-done", "set-false"], bounds="N=3 calls, cap 3, doorkeeper on"),
                  H("ZZ_C06_ExpiredUpdate", reach=["second-set"]),
                  H("ZZ_C06_Doorkeeper", reach=["three-sets", "first-sight-rejected"]),
@@ -246,8 +253,10 @@ PROPS["C02"] = {
               H("ZZ_C02_ExpiryWindow", params={"PRE": 1}, reach=["settled"], bounds="TTL extension vs expiry path at atomic granularity, preemptions 1"),
               H("ZZ_C04_LateUpdate", reach=["three-ticks"], bounds="cost and TTL update processed after the new deadline: accounting stays exact"),
               H("ZZ_C02_TwoWriters", params={"PRE": 1}, reach=["drained"], bounds="two writers x 2 Sets of one key, symbolic costs, preemptions 1 (an update event may overtake the insert event)"),
-              H("ZZ_C02_PoolStaleUpdate", params={"PRE": 1, "POOL": 1}, reach=["drained"], bounds="entry pool on: a delayed update event of a recycled entry, preemptions 1")],
-    "thorough": [H("ZZ_C02_PoolStaleUpdate", params={"PRE": 2, "POOL": 1, "POOLMODE": 2}, reach=["drained"], bounds="entry pool on, adversarial reuse, preemptions 2"),
+              H("ZZ_C02_PoolStaleUpdate", params={"PRE": 1, "POOL": 1}, reach=["drained"], bounds="entry pool on: a delayed update event of a recycled entry, preemptions 1"),
+              H("ZZ_C02_WindowCostUpdate", reach=["drained"], bounds="MaxSize 200: cost of a window entry raised (1..10 symbolic) while the main region holds 190..199")],
+    "thorough": [H("ZZ_C02_WindowCostUpdate", reach=["drained"]),
+                 H("ZZ_C02_PoolStaleUpdate", params={"PRE": 2, "POOL": 1, "POOLMODE": 2}, reach=["drained"], bounds="entry pool on, adversarial reuse, preemptions 2"),
                  H("ZZ_C02_Program", params={"PRE": 1}, reach=["drained"], bounds="2 clients x 2 ops, cap 2, preemptions 1"),
                  H("ZZ_C02_Program", params={"PRE": 0, "WQ": 1}, reach=["drained"], bounds="2 clients x 2 ops, one-slot write queue"),
                  H("ZZ_C02_Program", params={"PRE": 0, "CAP": 3}, reach=["drained"]),
@@ -265,8 +274,11 @@ PROPS["C05"] = {
               H("ZZ_C05_DeleteVsExpire", params={"PRE": 1}, reach=["drained"]), H("ZZ_C05_EvictVsExpire", params={"PRE": 1}, reach=["drained"]),
               H("ZZ_C05_ExpiredOnArrival", reach=["drained", "expired-on-arrival"], bounds="TTL, processing time and cached-clock reading symbolic"),
               H("ZZ_C05_DeleteVsReset", params={"PRE": 1}, reach=["drained"], bounds="Delete racing a Set of the same key (new incarnation), capacity 1"),
+              H("ZZ_C05_UpdateVsEvict", params={"PRE": 1}, reach=["drained"], bounds="overwrite of a key racing the eviction of its entry: the listener gets the value that left"),
+              H("ZZ_C02_ExpiryWindow", params={"PRE": 1}, reach=["settled"], bounds="deadline extension racing the expiry of the entry, atomic granularity"),
               H("ZZ_C05_Rejected", reach=["drained", "doorkeeper-rejected"])],
-    "thorough": [H("ZZ_C05_DeleteVsReset", params={"PRE": 2}, reach=["drained"]), H("ZZ_C05_ExpiredOnArrival", reach=["drained", "expired-on-arrival"]), H("ZZ_C05_DeleteVsEvict", params={"PRE": 2}, reach=["drained"]), H("ZZ_C05_DeleteVsEvict", params={"PRE": 2, "POOL": 1}, reach=["drained"]),
+    "thorough": [H("ZZ_C05_UpdateVsEvict", params={"PRE": 2}, reach=["drained"]), H("ZZ_C02_ExpiryWindow", params={"PRE": 2}, reach=["settled"]),
+                 H("ZZ_C05_DeleteVsReset", params={"PRE": 2}, reach=["drained"]), H("ZZ_C05_ExpiredOnArrival", reach=["drained", "expired-on-arrival"]), H("ZZ_C05_DeleteVsEvict", params={"PRE": 2}, reach=["drained"]), H("ZZ_C05_DeleteVsEvict", params={"PRE": 2, "POOL": 1}, reach=["drained"]),
                  H("ZZ_C05_DeleteVsExpire", params={"PRE": 2}, reach=["drained"]), H("ZZ_C05_EvictVsExpire", params={"PRE": 2}, reach=["drained"]),
                  H("ZZ_C05_Rejected", reach=["drained", "doorkeeper-rejected"])],
 }
